@@ -692,6 +692,41 @@ class C12(Suite):
             yield {"k": "fmtparse" if i % 4 else "fmt", "segs": segs, "count": count}
         for c in self.pipe_cases(tier, rng):
             yield c
+        for c in self.seq_cases(tier, rng):
+            yield c
+
+    def seq_cases(self, tier, rng):
+        """the same operation list OBJECT (built once: parsed texts, attribute-service dicts with an explicit
+        'method', service-code dicts) handed to the client under several settings, one after the other"""
+        quick = tier == "quick"
+        fixed = [{"t": "@0x99/1/2=(DINT)5,6,7", "a": 1}, {"t": "@0x99/1/1", "a": 1}, {"t": "@0x99/1", "a": 1},
+                 {"t": "@0x99/1/2", "a": 1}, {"t": "@0x99/1/9", "a": 1}]
+        yield {"k": "seq", "ops": fixed, "index": 0,
+               "passes": [["o", 0, 0, False], ["o", 2, 0, False], ["o", 0, 500, False], ["o", 1, 0, True]]}
+        yield {"k": "seq", "ops": [{"t": "A[0-2]=(DINT)1,2,3"}, {"t": "A[0-3]"}, {"t": "@0x99/1/1", "a": 1}], "index": 0,
+               "passes": [["s", 0, 0, True], ["p", 1, 100, False], ["s", 0, 0, False]]}
+        for li in range(12 if quick else 120):
+            n = rng.choice([1, 2, 3, 4, 6])
+            specs = []
+            for _ in range(n):
+                sp = gen_opspec(rng)
+                if rng.random() < 0.5:      # favour operations that carry an explicit 'method'
+                    for _try in range(20):
+                        sp = gen_opspec(rng)
+                        if sp.get("a") or "d" in sp:
+                            break
+                specs.append(sp)
+            try:
+                built = build_ops(specs, False)
+            except Exception:
+                continue
+            bare = any(op.get("send_path") == "" and op.get("method", "read" if "data" not in op else "write") == "read"
+                       for op in built)
+            passes = []
+            for _ in range(rng.choice([2, 2, 3, 4])):
+                passes.append([rng.choice("spo"), rng.choice(DEPTHS), rng.choice(MULTIPLES + [rng.randint(70, 400)]),
+                               (rng.random() < 0.3) and not bare])
+            yield {"k": "seq", "ops": specs, "passes": passes, "index": rng.choice([0, 0, 0, 5])}
 
     def pipe_cases(self, tier, rng):
         quick = tier == "quick"
@@ -745,10 +780,25 @@ class C12(Suite):
             except TypeError:
                 segs = "?"
             return "c12.%s %s %s" % (k, opt(c["count"]), segs)
+        if k == "seq":
+            try:
+                ops = build_ops(c["ops"], False)
+            except Exception:
+                return "c12.seq ? unbuildable -"
+            toks = []
+            for f in (False, True):
+                b = self.get_baseline({"ops": c["ops"], "fragment": f, "pf": False}) \
+                    if any(p[3] == f for p in c["passes"]) else None
+                toks.append(b if isinstance(b, list) and len(b) == len(ops) else ["?"] * len(ops))
+            body = ",".join("%s:%d:%s:%s:%s" % (METHOD_LETTER[op["method"]] if "method" in op else "-", 1 if "data" in op else 0,
+                                               op_fields(op).split(":", 1)[1], tf, tt)
+                            for op, tf, tt in zip(ops, toks[0], toks[1]))
+            passes = "+".join("%s/%d/%d/%d" % (v, d, m, 1 if f else 0) for v, d, m, f in c["passes"])
+            return "c12.seq %d %s %s" % (c["index"], passes, body or "-")
         if k == "pipe":
             base = self.get_baseline(c)
             try:
-                ops = build_ops(c["ops"], c["fragment"])
+                ops = build_ops(c["ops"], c.get("pf", c["fragment"]))
             except Exception:
                 return "c12.pipe ? unbuildable"
             toks = base if isinstance(base, list) and len(base) == len(ops) else ["?"] * len(ops)
@@ -784,7 +834,29 @@ class C12(Suite):
         if k == "pipe":
             self.get_baseline(c)
             return self.run_pipe(c)["line"]
+        if k == "seq":
+            return self.run_seq(c)
         raise ValueError(k)
+
+    def run_seq(self, c):
+        """ONE operation list object, built once, handed to the client under several settings in a row
+        (each pass from the same initial tag values)"""
+        try:
+            ops = build_ops(c["ops"], False)
+        except Exception as exc:
+            return "unbuildable:" + type(exc).__name__
+        before = copy.deepcopy(ops)
+        lines = []
+        for via, depth, multiple, fragment in c["passes"]:
+            self.get_baseline({"ops": c["ops"], "fragment": fragment, "pf": False})
+            r = self.run_pipe({"k": "pipe", "ops": c["ops"], "via": via, "depth": depth, "multiple": multiple,
+                               "fragment": fragment, "index": c["index"]}, ops=ops)
+            lines.append(r["line"])
+        try:
+            same = ops == before
+        except Exception:
+            same = False
+        return " ;; ".join(lines) + " A=" + ("same" if same else "altered")
 
     def ensure_sim(self):
         if self.sim is None:
@@ -793,21 +865,25 @@ class C12(Suite):
         return self.sim
 
     def get_baseline(self, c):
-        key = json.dumps([c["ops"], c["fragment"]], sort_keys=True)
+        """the synchronous, unbundled run over freshly built operations (what the property compares with)"""
+        pf = c.get("pf", c["fragment"])
+        key = json.dumps([c["ops"], c["fragment"], pf], sort_keys=True)
         if key not in self.baseline:
             r = self.run_pipe({"k": "pipe", "ops": c["ops"], "via": "s", "depth": 0, "multiple": 0,
-                               "fragment": c["fragment"], "index": 0})
+                               "fragment": c["fragment"], "pf": pf, "index": 0})
             self.baseline[key] = [t for _i, t in r["results"]] if r["outcome"] == "ok" else "baseline:" + r["outcome"]
         return self.baseline[key]
 
-    def run_pipe(self, c):
-        """one execution from the initial state; -> {'line', 'packets', 'results', 'outcome', 'keys'}"""
+    def run_pipe(self, c, ops=None):
+        """one execution from the initial state; -> {'line', 'packets', 'results', 'outcome', 'keys'}.
+        `ops`: an already built operation list to hand to the client as it is (the caller's own list object)"""
         sim = self.ensure_sim()
         self.runs += 1
-        try:
-            ops = build_ops(c["ops"], c["fragment"])
-        except Exception as exc:
-            return {"line": "unbuildable:" + type(exc).__name__, "packets": [], "results": [], "outcome": "unbuildable", "keys": []}
+        if ops is None:
+            try:
+                ops = build_ops(c["ops"], c.get("pf", c["fragment"]))
+            except Exception as exc:
+                return {"line": "unbuildable:" + type(exc).__name__, "packets": [], "results": [], "outcome": "unbuildable", "keys": []}
         keys = [path_ids(op) for op in ops]
         sim.reset()
         if c["via"] == "x":
@@ -895,13 +971,32 @@ class C12(Suite):
             want = "p=%s e=%s c=%s" % (segs_str(segs), opt(elm), opt(cnt))
             got = out.split(" ", 2)[2] if out.count(" ") >= 2 else ""
             return None if got == want else "formatted path parses back to %s, expected %s" % (got, want)
+        if k == "seq":
+            return self.seq_oracle(c, out)
         if k != "pipe":
             return None
         return self.pipe_oracle(c, out)
 
+    def seq_oracle(self, c, out):
+        """the property, pass by pass: whatever was done with the operation list before, every setting yields one
+        result per operation, in order, with the statuses and values of the synchronous unbundled execution"""
+        if out.startswith("unbuildable"):
+            return None
+        body = out.rsplit(" A=", 1)[0]
+        lines = body.split(" ;; ")
+        if len(lines) != len(c["passes"]):
+            return "%d passes reported for %d" % (len(lines), len(c["passes"]))
+        for n, ((via, depth, multiple, fragment), line) in enumerate(zip(c["passes"], lines)):
+            why = self.pipe_oracle({"k": "pipe", "ops": c["ops"], "via": via, "depth": depth, "multiple": multiple,
+                                    "fragment": fragment, "pf": False, "index": c["index"]}, line)
+            if why:
+                return "pass %d (%s depth=%d multiple=%d fragment=%s) over the same operation list: %s" % (
+                    n, {"s": "synchronous", "p": "pipeline", "o": "operate"}[via], depth, multiple, fragment, why)
+        return None
+
     def pipe_oracle(self, c, out):
         try:
-            ops = build_ops(c["ops"], c["fragment"])
+            ops = build_ops(c["ops"], c.get("pf", c["fragment"]))
         except Exception:
             return None
         n = len(ops)
@@ -950,7 +1045,16 @@ class C12(Suite):
 
     # -- evidence ------------------------------------------------------------------------------
     def nontrivial(self, c, out):
+        key = self._nontrivial(c, out)
+        return None if key is None else json.dumps(key)     # one hashable key (the framework spreads tuples)
+
+    def _nontrivial(self, c, out):
         k = c["k"]
+        if k == "seq":
+            if out.endswith("A=same") and " O=ok" in out and len(c["passes"]) > 1 and \
+                    any(sp.get("a") or "d" in sp for sp in c["ops"]):
+                return ("q", json.dumps(c["ops"]), json.dumps(c["passes"]), c["index"])
+            return None
         if k in ("parse", "attr"):
             if not out.startswith("ok"):
                 return None
@@ -974,6 +1078,10 @@ class C12(Suite):
 
     def classify(self, c, out):
         k = c["k"]
+        if k == "seq":
+            explicit = "explicit-method" if any(sp.get("a") or "d" in sp for sp in c["ops"]) else "texts-only"
+            ok = "ok" if out.count(" O=ok") == len(c["passes"]) else "not-ok"
+            return "seq:%d-passes:%s:%s:%s" % (len(c["passes"]), explicit, ok, out.rsplit("A=", 1)[-1][:12])
         if k == "pipe":
             n = len(c["ops"])
             size = "1" if n == 1 else "2-4" if n <= 4 else "5+"
@@ -996,6 +1104,24 @@ class C12(Suite):
 
     def shrink(self, c):
         k = c["k"]
+        if k == "seq":
+            ops, passes = c["ops"], c["passes"]
+            for i in range(len(ops)):
+                if len(ops) > 1:
+                    yield dict(c, ops=ops[:i] + ops[i + 1:])
+            for i in range(len(passes)):
+                if len(passes) > 1:
+                    yield dict(c, passes=passes[:i] + passes[i + 1:])
+            for i, (v, d, m, f) in enumerate(passes):
+                for simpler in ([v, 0, m, f], [v, d, 0, f], [v, d, m, False], ["s", 0, m, f]):
+                    if simpler != [v, d, m, f]:
+                        yield dict(c, passes=passes[:i] + [simpler] + passes[i + 1:])
+            for i, sp in enumerate(ops):
+                if sp.get("x"):
+                    yield dict(c, ops=ops[:i] + [dict(sp, x={})] + ops[i + 1:])
+            if c["index"]:
+                yield dict(c, index=0)
+            return
         if k in ("parse", "attr", "ppath"):
             t = c["text"]
             for i in range(len(t)):
